@@ -1,11 +1,11 @@
 /-
-Regression theorems for the five defects of multi-column containers that were recorded as findings of C01 / C02 /
+Regression theorems for the seven defects of multi-column containers that were recorded as findings of C01 / C02 /
 C03 / C05 and have been repaired in /repo (`fixed:` lines of `known_findings.txt`).  Each used to be a witness
 refuting a clause on a concrete document (`corpus/C01/colspan_*.json`, `corpus/C03/columns_negative_margin_bottom.json`,
-`corpus/C05/columns_margin_top_ignored.json`); the same documents now show the correct behaviour, in the model
+`corpus/C05/columns_margin_top_ignored.json`, `corpus/C01/colspan_block_resume_*.json`); the same documents now show the correct behaviour, in the model
 (`Model/PaginateCol.lean`, which follows the repaired code) and — replayed by the corpus-first cases of
 `py/harness/pm_col_corr.py` — in the real layout.  The general statements are `Props/C01Col.lean`
-(`pages_conserve`), `Props/C03Col.lean` (`page_progress`), `Props/C03GeoCol.lean` (`paginate_line_fits`, now without
+(`pages_conserve`, now without `NoSpan`), `Props/C03Col.lean` (`page_progress`), `Props/C03GeoCol.lean` (`paginate_line_fits`, now without
 any hypothesis on the container's bottom margin).
 -/
 import WpModel.Lemmas.ColSegPages
@@ -147,5 +147,30 @@ def borderTops : PagesOut → List (List Rat)
 theorem container_margin_top_collapses :
     borderTops (paginateCol (afterPara true) 10) = [[0, 20]] ∧
     borderTops (paginateCol (afterPara false) 10) = [[0, 20]] := by decide +kernel
+
+/-! ### 6. `column-span-block-resume-mislevelled` (C01) / `column-span-block-resume-crash` (C02), fixed by d7e3d63
+
+`columns:2 > [div column-span:all [p 2 lines, p 4 lines], p 4 lines]` on 192×40px pages.  The spanning block is
+cut after line 2 of its second paragraph; its resume position `{1: {0: line 2}}` used to be stored as
+`{0 + 1: {0: line 2}}` — the container was resumed at its *second child* with the stack of a grandchild (4 of 10
+lines lost; with other line counts an IndexError in the inline layout).  The stack is now wrapped
+(`column_skip_stack = {0: resume_at}`) and handed back one level down (`skip_stack[0]`). -/
+def spanBlock (n1 n2 n3 : Nat) : CDoc :=
+  { pageH := 40, rootLtr := true,
+    root := .block 9 { st0 with isRoot := true }
+      [.block 8 st0
+        [.columns 7 st0 { count := 2, balance := true, ltr := true, width := 192 } [true, false]
+          [.block 5 st0 [.para 1 n1 10 st0, .para 2 n2 10 st0],
+           .para 3 n3 10 st0]]] }
+
+theorem span_block_resumed_at_own_level :
+    shownLines (paginateCol (spanBlock 2 4 4) 40) =
+      some [[(1, 0), (1, 1), (2, 0), (2, 1)], [(2, 2), (2, 3), (3, 0), (3, 1), (3, 2), (3, 3)]] ∧
+    conservesB (spanBlock 2 4 4) 40 = true := by decide +kernel
+
+theorem span_block_resume_total :
+    shownLines (paginateCol (spanBlock 1 5 1) 40) =
+      some [[(1, 0), (2, 0), (2, 1), (2, 2)], [(2, 3), (2, 4), (3, 0)]] ∧
+    conservesB (spanBlock 1 5 1) 40 = true := by decide +kernel
 
 end Wp.Witness.C01Col
